@@ -5,7 +5,9 @@ from vlib.common import Violation, Discard, Inconclusive, Scratch, souffle, writ
 from vlib.pcheck import PCheck
 
 PID = "C20"
-RULE = ("dlgen programs (no eqrel, no subsumption; every relation incl. EDB is an output; relation sizes < 1000 because souffleprof "
+RULE = ("dlgen programs and (35%) recursion patterns over graphs with chains of up to 26 nodes (fixpoints of 10-25 iterations), 30% with an "
+        "extra input relation whose only clauses are recursive (no eqrel, no subsumption; an `.input` relation that ALSO has non-recursive "
+        "clauses is recorded finding F29 and only probed; every relation incl. EDB is an output; relation sizes < 1000 because souffleprof "
         "abbreviates larger counts), run at -j1 or -j4 with and without `-p <file>`. Oracle: (1) all output relations identical as "
         "multisets; (2) for every program relation listed by `souffleprof <file> -c rel`, the TUPLES column equals the number of "
         "tuples in that relation's output file. Non-trivial = the program has a recursive relation that needed >= 2 iterations "
@@ -15,8 +17,23 @@ ROW = re.compile(r"^\s*\S+\s+\S+\s+\S+\s+\S+\s+\S+\s+\S+\s+(\S+)\s+\S+\s+\S+\s+R
 
 
 def gen(ch):
-    P = dlgen.generate(ch, dlgen.Feat(output_edb=True))
+    if ch.bool(0.35):
+        # recursion patterns over graphs with long chains (fixpoints of 10-25 iterations), every relation an output
+        P = dlgen.gen_recursive(ch, max_nodes=26, max_edges=30, npatterns=(1, 2), ring=True)
+        for n in P.order:
+            P.rels[n].output = True
+    else:
+        P = dlgen.generate(ch, dlgen.Feat(output_edb=True))
     text, facts = dlgen.to_souffle(P)
+    if ch.bool(0.3):
+        # an input relation whose only clauses are recursive (its loaded tuples must be counted too)
+        pairs = sorted({(ch.int(0, 7), ch.int(0, 7)) for _ in range(ch.int(1, 8))})
+        text += ".decl tin(x:number, y:number)\n.input tin\n.output tin\ntin(x, z) :- tin(x, y), tin(y, z).\n"
+        facts = dict(facts)
+        facts["tin.facts"] = "".join("%d\t%d\n" % p for p in pairs)
+        P.order.append("tin")
+        P.rels["tin"] = dlgen.Rel("tin", [dlgen.NUMBER, dlgen.NUMBER], "idb")
+        P.rels["tin"].recursive = True
     names = {n: len(P.rels[n].types) for n in P.order}
     multi = sorted(n for n in P.order if len(P.rules_of(n)) >= 2)
     rec = sorted(n for n in P.order if P.rels[n].recursive)
@@ -81,6 +98,21 @@ def judge(case, st=None):
             st.classes["trivial"] += 1
 
 
-CHECK = PCheck(PID, RULE, gen, judge, quick=1200, thorough=20000, floor=50,
+F29_PROGRAM = ".decl b(x:number)\nb(7). b(8).\n.decl a(x:number)\n.input a\n.output a\na(x) :- b(x).\n"
+F29_FACTS = {"a.facts": "1\n2\n3\n"}
+
+
+def probes(st, tier, seed):
+    for f in common.findings_for(PID):
+        if f["key"] == "F29":
+            try:
+                judge({"program": F29_PROGRAM, "facts": F29_FACTS, "rels": {"a": 1, "b": 1}, "j": "-j1", "multi_rule": [], "recursive": []}, None)
+            except Violation:
+                st.known_lines.append(f["what"])
+            except (Discard, Inconclusive):
+                st.known_lines.append(f["what"])
+
+
+CHECK = PCheck(PID, RULE, gen, judge, quick=1200, thorough=20000, floor=50, probes=probes,
                assumptions=["interpreter back end", "relations the optimiser removed do not appear in the profile and are not compared"])
 main, replay_file = CHECK.main, CHECK.replay_file
